@@ -21,6 +21,18 @@ func blkShape(b *Blk, parents string, out map[string]bool) {
 }
 
 // gwInIncl: does an inclusive block contain another forking gateway block (parallel or inclusive)?
+func hasKind(b *Blk, kind string) bool {
+	if b.Kind == kind {
+		return true
+	}
+	for _, k := range b.Kids {
+		if hasKind(k, kind) {
+			return true
+		}
+	}
+	return false
+}
+
 func gwInIncl(b *Blk, inIncl bool) bool {
 	if inIncl && (b.Kind == "par" || b.Kind == "incl") {
 		return true
@@ -55,7 +67,7 @@ func runC01(env *Env) {
 	var progs []*Blk
 	progs = append(progs, fixed...)
 	for i := 0; i < nProg; i++ {
-		g := &blkGen{rng: rng, full: true}
+		g := &blkGen{rng: rng, full: true, ends: i%2 == 1}
 		b := g.gen(4+rng.Intn(7), 3, true)
 		if rng.Intn(3) == 0 {
 			b = g.wrap(b, 1)
@@ -117,13 +129,16 @@ func runC01(env *Env) {
 				rep.Violate(key, cs, o.problem+"; log: "+logString(o.log))
 				continue
 			}
-			if ends := countEv(o.log, "complete", "end"); ends != 1 {
-				rep.Violate("C01-end-events", cs, fmt.Sprintf("end event reached %d times, expected once; log: %s", ends, logString(o.log)))
+			if ends := countEv(o.log, "complete", "end"); ends > 1 {
+				rep.Violate("C01-end-events", cs, fmt.Sprintf("the final end event was reached %d times; log: %s", ends, logString(o.log)))
+			}
+			if hasKind(prog, "end") {
+				rep.Count("end_events_in_branches")
 			}
 			if errs := countEv(o.log, "error", "*"); errs > 0 {
 				rep.Violate("C01-token-game", cs, fmt.Sprintf("%d error traces; log: %s", errs, logString(o.log)))
 			}
-			items = append(items, fmt.Sprintf("(%s,%s,%s,%s,%s,[])", prog.Coq(), envCoq(env0), natList(o.first), o.CoqScript(), envCoq(o.vars)))
+			items = append(items, o.CoqCase(prog, env0, "[]"))
 			if len(rep.Samples) < 4 && len(o.steps) > 4 {
 				rep.Sample(fmt.Sprintf("%s -> first pending %v, steps %s, completed %v", cs, o.first, o.CoqScript(), o.completed))
 			}
@@ -210,6 +225,6 @@ func runC01(env *Env) {
 		}
 	}
 	env.WriteCases(rep, "_leave", "Corr.C01corr", "list nat * list nat * nat * nat", litems, "c01_leave_mismatches")
-	env.WriteCases(rep, "", "Corr.C01corr", "blk * list bool * list nat * list ostep * list bool * list (list nat)", items, "c01_mismatches")
+	env.WriteCases(rep, "", "Corr.C01corr", blkCaseType, items, "c01_mismatches")
 	env.WriteReport(rep)
 }
